@@ -669,6 +669,10 @@ class NetworkXPropertyGraph(ABCPropertyGraph, NetworkXMixin):
 
         # merge the nodes in situ
         nx.contracted_nodes(self.storage.get_graph(self.graph_id), real_node, real_other_node, copy=False)
+        # for relationships the two nodes had in common contracted_nodes records the other node's
+        # relationship in a 'contraction' attribute of the kept one - not a property of ours, remove it
+        for _, _, edge_props in self.storage.get_graph(self.graph_id).edges(real_node, data=True):
+            edge_props.pop('contraction', None)
 
         # deal with properties
         # remove all properties, including 'contracted' new property
